@@ -1,0 +1,1224 @@
+	.file	"test_bitv.c"
+	.text
+.Ltext0:
+	.file 0 "/repo/aldor/aldor/src" "test/test_bitv.c"
+	.section	.rodata
+.LC0:
+	.string	"testBitvToInt"
+.LC1:
+	.string	"testBitvCount"
+.LC2:
+	.string	"testBInt"
+	.text
+	.globl	bitvTestSuite
+	.type	bitvTestSuite, @function
+bitvTestSuite:
+.LFB0:
+	.file 1 "test/test_bitv.c"
+	.loc 1 17 1
+	.cfi_startproc
+	pushq	%rbp
+	.cfi_def_cfa_offset 16
+	.cfi_offset 6, -16
+	movq	%rsp, %rbp
+	.cfi_def_cfa_register 6
+	.loc 1 18 2
+	call	init@PLT
+	.loc 1 19 2
+	leaq	testBitvToInt(%rip), %rax
+	movq	%rax, %rsi
+	leaq	.LC0(%rip), %rax
+	movq	%rax, %rdi
+	call	showTest@PLT
+	.loc 1 20 2
+	leaq	testBitvCount(%rip), %rax
+	movq	%rax, %rsi
+	leaq	.LC1(%rip), %rax
+	movq	%rax, %rdi
+	call	showTest@PLT
+	.loc 1 21 2
+	leaq	testBInt(%rip), %rax
+	movq	%rax, %rsi
+	leaq	.LC2(%rip), %rax
+	movq	%rax, %rdi
+	call	showTest@PLT
+	.loc 1 22 2
+	call	fini@PLT
+	.loc 1 23 1
+	nop
+	popq	%rbp
+	.cfi_def_cfa 7, 8
+	ret
+	.cfi_endproc
+.LFE0:
+	.size	bitvTestSuite, .-bitvTestSuite
+	.section	.rodata
+.LC3:
+	.string	""
+.LC4:
+	.string	"Should be equal"
+.LC5:
+	.string	"ZZ"
+.LC6:
+	.string	"AA"
+	.text
+	.type	testBitvToInt, @function
+testBitvToInt:
+.LFB1:
+	.loc 1 27 1
+	.cfi_startproc
+	pushq	%rbp
+	.cfi_def_cfa_offset 16
+	.cfi_offset 6, -16
+	movq	%rsp, %rbp
+	.cfi_def_cfa_register 6
+	subq	$64, %rsp
+	.loc 1 28 19
+	movl	$10, %edi
+	call	bitvClassCreate@PLT
+	movq	%rax, -16(%rbp)
+	.loc 1 31 14
+	movq	-16(%rbp), %rax
+	movl	$0, %esi
+	movq	%rax, %rdi
+	call	bitvFromInt@PLT
+	movq	%rax, -24(%rbp)
+	.loc 1 32 2
+	movq	-24(%rbp), %rdx
+	movq	-16(%rbp), %rax
+	movq	%rdx, %rsi
+	movq	%rax, %rdi
+	call	bitvPrintDb@PLT
+	.loc 1 33 2
+	movq	-24(%rbp), %rdx
+	movq	-16(%rbp), %rax
+	movq	%rdx, %rsi
+	movq	%rax, %rdi
+	call	bitvCount@PLT
+	movl	%eax, %edx
+	movl	$0, %esi
+	leaq	.LC3(%rip), %rax
+	movq	%rax, %rdi
+	call	testIntEqual@PLT
+	.loc 1 35 8
+	movl	$0, -4(%rbp)
+	.loc 1 35 2
+	jmp	.L3
+.L4:
+.LBB2:
+	.loc 1 36 15 discriminator 3
+	movl	-4(%rbp), %edx
+	movq	-16(%rbp), %rax
+	movl	%edx, %esi
+	movq	%rax, %rdi
+	call	bitvFromInt@PLT
+	movq	%rax, -48(%rbp)
+	.loc 1 37 14 discriminator 3
+	movq	-48(%rbp), %rdx
+	movq	-16(%rbp), %rax
+	movq	%rdx, %rsi
+	movq	%rax, %rdi
+	call	bitvToInt@PLT
+	movl	%eax, -52(%rbp)
+	.loc 1 39 3 discriminator 3
+	movl	-52(%rbp), %edx
+	movl	-4(%rbp), %eax
+	movl	%eax, %esi
+	leaq	.LC4(%rip), %rax
+	movq	%rax, %rdi
+	call	testIntEqual@PLT
+	.loc 1 40 3 discriminator 3
+	movq	-48(%rbp), %rax
+	movq	%rax, %rdi
+	call	bitvFree@PLT
+.LBE2:
+	.loc 1 35 21 discriminator 3
+	addl	$1, -4(%rbp)
+.L3:
+	.loc 1 35 13 discriminator 1
+	cmpl	$1023, -4(%rbp)
+	jle	.L4
+	.loc 1 43 8
+	movl	$0, -4(%rbp)
+	.loc 1 43 2
+	jmp	.L5
+.L6:
+.LBB3:
+	.loc 1 44 15 discriminator 3
+	movl	-4(%rbp), %eax
+	movl	$1, %edx
+	movl	%eax, %ecx
+	sall	%cl, %edx
+	movq	-16(%rbp), %rax
+	movl	%edx, %esi
+	movq	%rax, %rdi
+	call	bitvFromInt@PLT
+	movq	%rax, -40(%rbp)
+	.loc 1 45 3 discriminator 3
+	movq	-40(%rbp), %rdx
+	movq	-16(%rbp), %rax
+	movq	%rdx, %rsi
+	movq	%rax, %rdi
+	call	bitvCount@PLT
+	movl	%eax, %edx
+	movl	$1, %esi
+	leaq	.LC5(%rip), %rax
+	movq	%rax, %rdi
+	call	testIntEqual@PLT
+	.loc 1 46 3 discriminator 3
+	movq	-40(%rbp), %rax
+	movq	%rax, %rdi
+	call	bitvFree@PLT
+.LBE3:
+	.loc 1 43 19 discriminator 3
+	addl	$1, -4(%rbp)
+.L5:
+	.loc 1 43 13 discriminator 1
+	cmpl	$9, -4(%rbp)
+	jle	.L6
+	.loc 1 48 8
+	movl	$0, -4(%rbp)
+	.loc 1 48 2
+	jmp	.L7
+.L8:
+.LBB4:
+	.loc 1 49 35 discriminator 3
+	movl	-4(%rbp), %eax
+	movl	$1, %edx
+	movl	%eax, %ecx
+	sall	%cl, %edx
+	movl	%edx, %eax
+	.loc 1 49 15 discriminator 3
+	leal	-1(%rax), %edx
+	movq	-16(%rbp), %rax
+	movl	%edx, %esi
+	movq	%rax, %rdi
+	call	bitvFromInt@PLT
+	movq	%rax, -32(%rbp)
+	.loc 1 50 3 discriminator 3
+	movq	-32(%rbp), %rdx
+	movq	-16(%rbp), %rax
+	movq	%rdx, %rsi
+	movq	%rax, %rdi
+	call	bitvCount@PLT
+	movl	%eax, %edx
+	movl	-4(%rbp), %eax
+	movl	%eax, %esi
+	leaq	.LC6(%rip), %rax
+	movq	%rax, %rdi
+	call	testIntEqual@PLT
+	.loc 1 51 3 discriminator 3
+	movq	-32(%rbp), %rax
+	movq	%rax, %rdi
+	call	bitvFree@PLT
+.LBE4:
+	.loc 1 48 19 discriminator 3
+	addl	$1, -4(%rbp)
+.L7:
+	.loc 1 48 13 discriminator 1
+	cmpl	$9, -4(%rbp)
+	jle	.L8
+	.loc 1 53 2
+	movq	-16(%rbp), %rax
+	movq	%rax, %rdi
+	call	bitvClassDestroy@PLT
+	.loc 1 55 1
+	nop
+	leave
+	.cfi_def_cfa 7, 8
+	ret
+	.cfi_endproc
+.LFE1:
+	.size	testBitvToInt, .-testBitvToInt
+	.section	.rodata
+.LC7:
+	.string	"A"
+.LC8:
+	.string	"B"
+.LC9:
+	.string	"C"
+	.text
+	.type	testBitvCount, @function
+testBitvCount:
+.LFB2:
+	.loc 1 59 1
+	.cfi_startproc
+	pushq	%rbp
+	.cfi_def_cfa_offset 16
+	.cfi_offset 6, -16
+	movq	%rsp, %rbp
+	.cfi_def_cfa_register 6
+	subq	$32, %rsp
+	.loc 1 60 19
+	movl	$10, %edi
+	call	bitvClassCreate@PLT
+	movq	%rax, -16(%rbp)
+	.loc 1 61 14
+	movq	-16(%rbp), %rax
+	movq	%rax, %rdi
+	call	bitvNew@PLT
+	movq	%rax, -24(%rbp)
+	.loc 1 63 2
+	movq	-24(%rbp), %rdx
+	movq	-16(%rbp), %rax
+	movq	%rdx, %rsi
+	movq	%rax, %rdi
+	call	bitvClearAll@PLT
+	.loc 1 64 2
+	movq	-24(%rbp), %rdx
+	movq	-16(%rbp), %rax
+	movq	%rdx, %rsi
+	movq	%rax, %rdi
+	call	bitvCount@PLT
+	movl	%eax, %edx
+	movl	$0, %esi
+	leaq	.LC7(%rip), %rax
+	movq	%rax, %rdi
+	call	testIntEqual@PLT
+	.loc 1 65 2
+	movq	-24(%rbp), %rdx
+	movq	-16(%rbp), %rax
+	movq	%rdx, %rsi
+	movq	%rax, %rdi
+	call	bitvSetAll@PLT
+	.loc 1 66 2
+	movq	-24(%rbp), %rdx
+	movq	-16(%rbp), %rax
+	movq	%rdx, %rsi
+	movq	%rax, %rdi
+	call	bitvCount@PLT
+	movl	%eax, %edx
+	movl	$10, %esi
+	leaq	.LC8(%rip), %rax
+	movq	%rax, %rdi
+	call	testIntEqual@PLT
+	.loc 1 67 8
+	movl	$0, -4(%rbp)
+	.loc 1 67 2
+	jmp	.L10
+.L11:
+	.loc 1 68 3 discriminator 3
+	movl	-4(%rbp), %edx
+	movq	-24(%rbp), %rcx
+	movq	-16(%rbp), %rax
+	movq	%rcx, %rsi
+	movq	%rax, %rdi
+	call	bitvCountTo@PLT
+	movl	%eax, %edx
+	movl	-4(%rbp), %eax
+	movl	%eax, %esi
+	leaq	.LC9(%rip), %rax
+	movq	%rax, %rdi
+	call	testIntEqual@PLT
+	.loc 1 67 19 discriminator 3
+	addl	$1, -4(%rbp)
+.L10:
+	.loc 1 67 13 discriminator 1
+	cmpl	$9, -4(%rbp)
+	jle	.L11
+	.loc 1 70 2
+	movq	-16(%rbp), %rax
+	movq	%rax, %rdi
+	call	bitvClassDestroy@PLT
+	.loc 1 71 1
+	nop
+	leave
+	.cfi_def_cfa 7, 8
+	ret
+	.cfi_endproc
+.LFE2:
+	.size	testBitvCount, .-testBitvCount
+	.section	.rodata
+.LC10:
+	.string	"bint size"
+	.text
+	.type	testBInt, @function
+testBInt:
+.LFB3:
+	.loc 1 75 1
+	.cfi_startproc
+	pushq	%rbp
+	.cfi_def_cfa_offset 16
+	.cfi_offset 6, -16
+	movq	%rsp, %rbp
+	.cfi_def_cfa_register 6
+	.loc 1 76 2
+	movl	$1, %esi
+	leaq	.LC10(%rip), %rax
+	movq	%rax, %rdi
+	call	testTrue@PLT
+	.loc 1 77 1
+	nop
+	popq	%rbp
+	.cfi_def_cfa 7, 8
+	ret
+	.cfi_endproc
+.LFE3:
+	.size	testBInt, .-testBInt
+.Letext0:
+	.file 2 "/usr/lib/gcc/x86_64-linux-gnu/12/include/stddef.h"
+	.file 3 "./cport.h"
+	.file 4 "./bitv.h"
+	.file 5 "test/testlib.h"
+	.section	.debug_info,"",@progbits
+.Ldebug_info0:
+	.long	0x3a4
+	.value	0x5
+	.byte	0x1
+	.byte	0x8
+	.long	.Ldebug_abbrev0
+	.uleb128 0xe
+	.long	.LASF45
+	.byte	0xc
+	.long	.LASF0
+	.long	.LASF1
+	.quad	.Ltext0
+	.quad	.Letext0-.Ltext0
+	.long	.Ldebug_line0
+	.uleb128 0xf
+	.byte	0x4
+	.byte	0x5
+	.string	"int"
+	.uleb128 0x2
+	.byte	0x1
+	.byte	0x8
+	.long	.LASF2
+	.uleb128 0x2
+	.byte	0x2
+	.byte	0x7
+	.long	.LASF3
+	.uleb128 0x2
+	.byte	0x4
+	.byte	0x7
+	.long	.LASF4
+	.uleb128 0x2
+	.byte	0x8
+	.byte	0x7
+	.long	.LASF5
+	.uleb128 0x2
+	.byte	0x1
+	.byte	0x6
+	.long	.LASF6
+	.uleb128 0x2
+	.byte	0x2
+	.byte	0x5
+	.long	.LASF7
+	.uleb128 0x2
+	.byte	0x8
+	.byte	0x5
+	.long	.LASF8
+	.uleb128 0x6
+	.long	0x6b
+	.uleb128 0x2
+	.byte	0x1
+	.byte	0x6
+	.long	.LASF9
+	.uleb128 0x2
+	.byte	0x4
+	.byte	0x4
+	.long	.LASF10
+	.uleb128 0x2
+	.byte	0x8
+	.byte	0x4
+	.long	.LASF11
+	.uleb128 0x7
+	.long	.LASF13
+	.byte	0x2
+	.byte	0xd6
+	.byte	0x1b
+	.long	0x4a
+	.uleb128 0x2
+	.byte	0x8
+	.byte	0x5
+	.long	.LASF12
+	.uleb128 0x8
+	.long	.LASF14
+	.value	0x13a
+	.byte	0x17
+	.long	0x4a
+	.uleb128 0x8
+	.long	.LASF15
+	.value	0x156
+	.byte	0xd
+	.long	0x2e
+	.uleb128 0x8
+	.long	.LASF16
+	.value	0x158
+	.byte	0x10
+	.long	0x80
+	.uleb128 0x8
+	.long	.LASF17
+	.value	0x16a
+	.byte	0xf
+	.long	0x66
+	.uleb128 0x7
+	.long	.LASF18
+	.byte	0x4
+	.byte	0xe
+	.byte	0xf
+	.long	0x93
+	.uleb128 0x7
+	.long	.LASF19
+	.byte	0x4
+	.byte	0x10
+	.byte	0x13
+	.long	0xdb
+	.uleb128 0x6
+	.long	0xc3
+	.uleb128 0x10
+	.long	.LASF46
+	.byte	0x10
+	.byte	0x4
+	.byte	0x12
+	.byte	0x8
+	.long	0x104
+	.uleb128 0x9
+	.long	.LASF20
+	.byte	0x14
+	.long	0xab
+	.byte	0
+	.uleb128 0x9
+	.long	.LASF21
+	.byte	0x15
+	.long	0xab
+	.byte	0x8
+	.byte	0
+	.uleb128 0x7
+	.long	.LASF22
+	.byte	0x4
+	.byte	0x19
+	.byte	0x1d
+	.long	0x110
+	.uleb128 0x6
+	.long	0xe0
+	.uleb128 0x4
+	.long	.LASF23
+	.byte	0x5
+	.byte	0xc
+	.byte	0x6
+	.long	0x12c
+	.uleb128 0x1
+	.long	0xb7
+	.uleb128 0x1
+	.long	0x9f
+	.byte	0
+	.uleb128 0x5
+	.long	.LASF26
+	.byte	0x32
+	.byte	0xc
+	.long	0x2e
+	.long	0x14b
+	.uleb128 0x1
+	.long	0x104
+	.uleb128 0x1
+	.long	0xcf
+	.uleb128 0x1
+	.long	0x2e
+	.byte	0
+	.uleb128 0x4
+	.long	.LASF24
+	.byte	0x4
+	.byte	0x37
+	.byte	0xd
+	.long	0x162
+	.uleb128 0x1
+	.long	0x104
+	.uleb128 0x1
+	.long	0xcf
+	.byte	0
+	.uleb128 0x4
+	.long	.LASF25
+	.byte	0x4
+	.byte	0x38
+	.byte	0xd
+	.long	0x179
+	.uleb128 0x1
+	.long	0x104
+	.uleb128 0x1
+	.long	0xcf
+	.byte	0
+	.uleb128 0x5
+	.long	.LASF27
+	.byte	0x26
+	.byte	0xd
+	.long	0xcf
+	.long	0x18e
+	.uleb128 0x1
+	.long	0x104
+	.byte	0
+	.uleb128 0x4
+	.long	.LASF28
+	.byte	0x4
+	.byte	0x21
+	.byte	0xd
+	.long	0x1a0
+	.uleb128 0x1
+	.long	0x104
+	.byte	0
+	.uleb128 0x4
+	.long	.LASF29
+	.byte	0x4
+	.byte	0x27
+	.byte	0xd
+	.long	0x1b2
+	.uleb128 0x1
+	.long	0xcf
+	.byte	0
+	.uleb128 0x5
+	.long	.LASF30
+	.byte	0x49
+	.byte	0xc
+	.long	0x2e
+	.long	0x1cc
+	.uleb128 0x1
+	.long	0x104
+	.uleb128 0x1
+	.long	0xcf
+	.byte	0
+	.uleb128 0x4
+	.long	.LASF31
+	.byte	0x5
+	.byte	0x8
+	.byte	0x6
+	.long	0x1e8
+	.uleb128 0x1
+	.long	0xb7
+	.uleb128 0x1
+	.long	0x2e
+	.uleb128 0x1
+	.long	0x2e
+	.byte	0
+	.uleb128 0x5
+	.long	.LASF32
+	.byte	0x31
+	.byte	0xc
+	.long	0x2e
+	.long	0x202
+	.uleb128 0x1
+	.long	0x104
+	.uleb128 0x1
+	.long	0xcf
+	.byte	0
+	.uleb128 0x5
+	.long	.LASF33
+	.byte	0x2e
+	.byte	0xc
+	.long	0x2e
+	.long	0x21c
+	.uleb128 0x1
+	.long	0x104
+	.uleb128 0x1
+	.long	0xcf
+	.byte	0
+	.uleb128 0x5
+	.long	.LASF34
+	.byte	0x48
+	.byte	0xd
+	.long	0xcf
+	.long	0x236
+	.uleb128 0x1
+	.long	0x104
+	.uleb128 0x1
+	.long	0x2e
+	.byte	0
+	.uleb128 0x5
+	.long	.LASF35
+	.byte	0x20
+	.byte	0x12
+	.long	0x104
+	.long	0x24b
+	.uleb128 0x1
+	.long	0x2e
+	.byte	0
+	.uleb128 0xa
+	.long	.LASF37
+	.byte	0xd
+	.uleb128 0x4
+	.long	.LASF36
+	.byte	0x5
+	.byte	0x15
+	.byte	0x6
+	.long	0x268
+	.uleb128 0x1
+	.long	0x66
+	.uleb128 0x1
+	.long	0x268
+	.byte	0
+	.uleb128 0x6
+	.long	0x26d
+	.uleb128 0x11
+	.uleb128 0xa
+	.long	.LASF38
+	.byte	0xc
+	.uleb128 0x12
+	.long	.LASF47
+	.byte	0x1
+	.byte	0x4a
+	.byte	0x1
+	.quad	.LFB3
+	.quad	.LFE3-.LFB3
+	.uleb128 0x1
+	.byte	0x9c
+	.uleb128 0xb
+	.long	.LASF41
+	.byte	0x3a
+	.quad	.LFB2
+	.quad	.LFE2-.LFB2
+	.uleb128 0x1
+	.byte	0x9c
+	.long	0x2d2
+	.uleb128 0x3
+	.long	.LASF39
+	.byte	0x3c
+	.byte	0xc
+	.long	0x104
+	.uleb128 0x2
+	.byte	0x91
+	.sleb128 -32
+	.uleb128 0x3
+	.long	.LASF40
+	.byte	0x3d
+	.byte	0x7
+	.long	0xcf
+	.uleb128 0x2
+	.byte	0x91
+	.sleb128 -40
+	.uleb128 0xc
+	.string	"i"
+	.byte	0x3e
+	.long	0x2e
+	.uleb128 0x2
+	.byte	0x91
+	.sleb128 -20
+	.byte	0
+	.uleb128 0xb
+	.long	.LASF42
+	.byte	0x1a
+	.quad	.LFB1
+	.quad	.LFE1-.LFB1
+	.uleb128 0x1
+	.byte	0x9c
+	.long	0x38d
+	.uleb128 0x3
+	.long	.LASF39
+	.byte	0x1c
+	.byte	0xc
+	.long	0x104
+	.uleb128 0x2
+	.byte	0x91
+	.sleb128 -32
+	.uleb128 0xc
+	.string	"i"
+	.byte	0x1d
+	.long	0x2e
+	.uleb128 0x2
+	.byte	0x91
+	.sleb128 -20
+	.uleb128 0x3
+	.long	.LASF40
+	.byte	0x1f
+	.byte	0x7
+	.long	0xcf
+	.uleb128 0x2
+	.byte	0x91
+	.sleb128 -40
+	.uleb128 0xd
+	.quad	.LBB2
+	.quad	.LBE2-.LBB2
+	.long	0x348
+	.uleb128 0x3
+	.long	.LASF43
+	.byte	0x24
+	.byte	0x8
+	.long	0xcf
+	.uleb128 0x2
+	.byte	0x91
+	.sleb128 -64
+	.uleb128 0x3
+	.long	.LASF44
+	.byte	0x25
+	.byte	0x7
+	.long	0x2e
+	.uleb128 0x3
+	.byte	0x91
+	.sleb128 -68
+	.byte	0
+	.uleb128 0xd
+	.quad	.LBB3
+	.quad	.LBE3-.LBB3
+	.long	0x36c
+	.uleb128 0x3
+	.long	.LASF40
+	.byte	0x2c
+	.byte	0x8
+	.long	0xcf
+	.uleb128 0x2
+	.byte	0x91
+	.sleb128 -56
+	.byte	0
+	.uleb128 0x13
+	.quad	.LBB4
+	.quad	.LBE4-.LBB4
+	.uleb128 0x3
+	.long	.LASF40
+	.byte	0x31
+	.byte	0x8
+	.long	0xcf
+	.uleb128 0x2
+	.byte	0x91
+	.sleb128 -48
+	.byte	0
+	.byte	0
+	.uleb128 0x14
+	.long	.LASF48
+	.byte	0x1
+	.byte	0x10
+	.byte	0x1
+	.quad	.LFB0
+	.quad	.LFE0-.LFB0
+	.uleb128 0x1
+	.byte	0x9c
+	.byte	0
+	.section	.debug_abbrev,"",@progbits
+.Ldebug_abbrev0:
+	.uleb128 0x1
+	.uleb128 0x5
+	.byte	0
+	.uleb128 0x49
+	.uleb128 0x13
+	.byte	0
+	.byte	0
+	.uleb128 0x2
+	.uleb128 0x24
+	.byte	0
+	.uleb128 0xb
+	.uleb128 0xb
+	.uleb128 0x3e
+	.uleb128 0xb
+	.uleb128 0x3
+	.uleb128 0xe
+	.byte	0
+	.byte	0
+	.uleb128 0x3
+	.uleb128 0x34
+	.byte	0
+	.uleb128 0x3
+	.uleb128 0xe
+	.uleb128 0x3a
+	.uleb128 0x21
+	.sleb128 1
+	.uleb128 0x3b
+	.uleb128 0xb
+	.uleb128 0x39
+	.uleb128 0xb
+	.uleb128 0x49
+	.uleb128 0x13
+	.uleb128 0x2
+	.uleb128 0x18
+	.byte	0
+	.byte	0
+	.uleb128 0x4
+	.uleb128 0x2e
+	.byte	0x1
+	.uleb128 0x3f
+	.uleb128 0x19
+	.uleb128 0x3
+	.uleb128 0xe
+	.uleb128 0x3a
+	.uleb128 0xb
+	.uleb128 0x3b
+	.uleb128 0xb
+	.uleb128 0x39
+	.uleb128 0xb
+	.uleb128 0x27
+	.uleb128 0x19
+	.uleb128 0x3c
+	.uleb128 0x19
+	.uleb128 0x1
+	.uleb128 0x13
+	.byte	0
+	.byte	0
+	.uleb128 0x5
+	.uleb128 0x2e
+	.byte	0x1
+	.uleb128 0x3f
+	.uleb128 0x19
+	.uleb128 0x3
+	.uleb128 0xe
+	.uleb128 0x3a
+	.uleb128 0x21
+	.sleb128 4
+	.uleb128 0x3b
+	.uleb128 0xb
+	.uleb128 0x39
+	.uleb128 0xb
+	.uleb128 0x27
+	.uleb128 0x19
+	.uleb128 0x49
+	.uleb128 0x13
+	.uleb128 0x3c
+	.uleb128 0x19
+	.uleb128 0x1
+	.uleb128 0x13
+	.byte	0
+	.byte	0
+	.uleb128 0x6
+	.uleb128 0xf
+	.byte	0
+	.uleb128 0xb
+	.uleb128 0x21
+	.sleb128 8
+	.uleb128 0x49
+	.uleb128 0x13
+	.byte	0
+	.byte	0
+	.uleb128 0x7
+	.uleb128 0x16
+	.byte	0
+	.uleb128 0x3
+	.uleb128 0xe
+	.uleb128 0x3a
+	.uleb128 0xb
+	.uleb128 0x3b
+	.uleb128 0xb
+	.uleb128 0x39
+	.uleb128 0xb
+	.uleb128 0x49
+	.uleb128 0x13
+	.byte	0
+	.byte	0
+	.uleb128 0x8
+	.uleb128 0x16
+	.byte	0
+	.uleb128 0x3
+	.uleb128 0xe
+	.uleb128 0x3a
+	.uleb128 0x21
+	.sleb128 3
+	.uleb128 0x3b
+	.uleb128 0x5
+	.uleb128 0x39
+	.uleb128 0xb
+	.uleb128 0x49
+	.uleb128 0x13
+	.byte	0
+	.byte	0
+	.uleb128 0x9
+	.uleb128 0xd
+	.byte	0
+	.uleb128 0x3
+	.uleb128 0xe
+	.uleb128 0x3a
+	.uleb128 0x21
+	.sleb128 4
+	.uleb128 0x3b
+	.uleb128 0xb
+	.uleb128 0x39
+	.uleb128 0x21
+	.sleb128 9
+	.uleb128 0x49
+	.uleb128 0x13
+	.uleb128 0x38
+	.uleb128 0xb
+	.byte	0
+	.byte	0
+	.uleb128 0xa
+	.uleb128 0x2e
+	.byte	0
+	.uleb128 0x3f
+	.uleb128 0x19
+	.uleb128 0x3
+	.uleb128 0xe
+	.uleb128 0x3a
+	.uleb128 0x21
+	.sleb128 1
+	.uleb128 0x3b
+	.uleb128 0xb
+	.uleb128 0x39
+	.uleb128 0x21
+	.sleb128 6
+	.uleb128 0x27
+	.uleb128 0x19
+	.uleb128 0x3c
+	.uleb128 0x19
+	.byte	0
+	.byte	0
+	.uleb128 0xb
+	.uleb128 0x2e
+	.byte	0x1
+	.uleb128 0x3
+	.uleb128 0xe
+	.uleb128 0x3a
+	.uleb128 0x21
+	.sleb128 1
+	.uleb128 0x3b
+	.uleb128 0xb
+	.uleb128 0x39
+	.uleb128 0x21
+	.sleb128 1
+	.uleb128 0x11
+	.uleb128 0x1
+	.uleb128 0x12
+	.uleb128 0x7
+	.uleb128 0x40
+	.uleb128 0x18
+	.uleb128 0x7c
+	.uleb128 0x19
+	.uleb128 0x1
+	.uleb128 0x13
+	.byte	0
+	.byte	0
+	.uleb128 0xc
+	.uleb128 0x34
+	.byte	0
+	.uleb128 0x3
+	.uleb128 0x8
+	.uleb128 0x3a
+	.uleb128 0x21
+	.sleb128 1
+	.uleb128 0x3b
+	.uleb128 0xb
+	.uleb128 0x39
+	.uleb128 0x21
+	.sleb128 6
+	.uleb128 0x49
+	.uleb128 0x13
+	.uleb128 0x2
+	.uleb128 0x18
+	.byte	0
+	.byte	0
+	.uleb128 0xd
+	.uleb128 0xb
+	.byte	0x1
+	.uleb128 0x11
+	.uleb128 0x1
+	.uleb128 0x12
+	.uleb128 0x7
+	.uleb128 0x1
+	.uleb128 0x13
+	.byte	0
+	.byte	0
+	.uleb128 0xe
+	.uleb128 0x11
+	.byte	0x1
+	.uleb128 0x25
+	.uleb128 0xe
+	.uleb128 0x13
+	.uleb128 0xb
+	.uleb128 0x3
+	.uleb128 0x1f
+	.uleb128 0x1b
+	.uleb128 0x1f
+	.uleb128 0x11
+	.uleb128 0x1
+	.uleb128 0x12
+	.uleb128 0x7
+	.uleb128 0x10
+	.uleb128 0x17
+	.byte	0
+	.byte	0
+	.uleb128 0xf
+	.uleb128 0x24
+	.byte	0
+	.uleb128 0xb
+	.uleb128 0xb
+	.uleb128 0x3e
+	.uleb128 0xb
+	.uleb128 0x3
+	.uleb128 0x8
+	.byte	0
+	.byte	0
+	.uleb128 0x10
+	.uleb128 0x13
+	.byte	0x1
+	.uleb128 0x3
+	.uleb128 0xe
+	.uleb128 0xb
+	.uleb128 0xb
+	.uleb128 0x3a
+	.uleb128 0xb
+	.uleb128 0x3b
+	.uleb128 0xb
+	.uleb128 0x39
+	.uleb128 0xb
+	.uleb128 0x1
+	.uleb128 0x13
+	.byte	0
+	.byte	0
+	.uleb128 0x11
+	.uleb128 0x15
+	.byte	0
+	.uleb128 0x27
+	.uleb128 0x19
+	.byte	0
+	.byte	0
+	.uleb128 0x12
+	.uleb128 0x2e
+	.byte	0
+	.uleb128 0x3
+	.uleb128 0xe
+	.uleb128 0x3a
+	.uleb128 0xb
+	.uleb128 0x3b
+	.uleb128 0xb
+	.uleb128 0x39
+	.uleb128 0xb
+	.uleb128 0x11
+	.uleb128 0x1
+	.uleb128 0x12
+	.uleb128 0x7
+	.uleb128 0x40
+	.uleb128 0x18
+	.uleb128 0x7c
+	.uleb128 0x19
+	.byte	0
+	.byte	0
+	.uleb128 0x13
+	.uleb128 0xb
+	.byte	0x1
+	.uleb128 0x11
+	.uleb128 0x1
+	.uleb128 0x12
+	.uleb128 0x7
+	.byte	0
+	.byte	0
+	.uleb128 0x14
+	.uleb128 0x2e
+	.byte	0
+	.uleb128 0x3f
+	.uleb128 0x19
+	.uleb128 0x3
+	.uleb128 0xe
+	.uleb128 0x3a
+	.uleb128 0xb
+	.uleb128 0x3b
+	.uleb128 0xb
+	.uleb128 0x39
+	.uleb128 0xb
+	.uleb128 0x11
+	.uleb128 0x1
+	.uleb128 0x12
+	.uleb128 0x7
+	.uleb128 0x40
+	.uleb128 0x18
+	.uleb128 0x7c
+	.uleb128 0x19
+	.byte	0
+	.byte	0
+	.byte	0
+	.section	.debug_aranges,"",@progbits
+	.long	0x2c
+	.value	0x2
+	.long	.Ldebug_info0
+	.byte	0x8
+	.byte	0
+	.value	0
+	.value	0
+	.quad	.Ltext0
+	.quad	.Letext0-.Ltext0
+	.quad	0
+	.quad	0
+	.section	.debug_line,"",@progbits
+.Ldebug_line0:
+	.section	.debug_str,"MS",@progbits,1
+.LASF20:
+	.string	"nbits"
+.LASF13:
+	.string	"size_t"
+.LASF42:
+	.string	"testBitvToInt"
+.LASF23:
+	.string	"testTrue"
+.LASF33:
+	.string	"bitvPrintDb"
+.LASF48:
+	.string	"bitvTestSuite"
+.LASF17:
+	.string	"String"
+.LASF3:
+	.string	"short unsigned int"
+.LASF41:
+	.string	"testBitvCount"
+.LASF28:
+	.string	"bitvClassDestroy"
+.LASF4:
+	.string	"unsigned int"
+.LASF38:
+	.string	"init"
+.LASF29:
+	.string	"bitvFree"
+.LASF10:
+	.string	"float"
+.LASF2:
+	.string	"unsigned char"
+.LASF31:
+	.string	"testIntEqual"
+.LASF15:
+	.string	"Bool"
+.LASF5:
+	.string	"long unsigned int"
+.LASF37:
+	.string	"fini"
+.LASF47:
+	.string	"testBInt"
+.LASF26:
+	.string	"bitvCountTo"
+.LASF36:
+	.string	"showTest"
+.LASF46:
+	.string	"_BitvClass"
+.LASF39:
+	.string	"clss"
+.LASF34:
+	.string	"bitvFromInt"
+.LASF22:
+	.string	"BitvClass"
+.LASF35:
+	.string	"bitvClassCreate"
+.LASF9:
+	.string	"char"
+.LASF21:
+	.string	"nwords"
+.LASF18:
+	.string	"BitvWord"
+.LASF27:
+	.string	"bitvNew"
+.LASF12:
+	.string	"long long int"
+.LASF30:
+	.string	"bitvToInt"
+.LASF43:
+	.string	"bits"
+.LASF40:
+	.string	"bitv"
+.LASF45:
+	.string	"GNU C99 12.2.0 -mtune=generic -march=x86-64 -g -O0 -std=c99 -fasynchronous-unwind-tables"
+.LASF7:
+	.string	"short int"
+.LASF32:
+	.string	"bitvCount"
+.LASF25:
+	.string	"bitvClearAll"
+.LASF8:
+	.string	"long int"
+.LASF16:
+	.string	"Length"
+.LASF24:
+	.string	"bitvSetAll"
+.LASF6:
+	.string	"signed char"
+.LASF11:
+	.string	"double"
+.LASF44:
+	.string	"back"
+.LASF14:
+	.string	"ULong"
+.LASF19:
+	.string	"Bitv"
+	.section	.debug_line_str,"MS",@progbits,1
+.LASF1:
+	.string	"/repo/aldor/aldor/src"
+.LASF0:
+	.string	"test/test_bitv.c"
+	.ident	"GCC: (Debian 12.2.0-14+deb12u1) 12.2.0"
+	.section	.note.GNU-stack,"",@progbits
